@@ -109,6 +109,21 @@ def histories(draw):
     return {"hosts": roles, "script": script, "ops": ops, "k": draw(st.integers(0, 20))}
 
 
+@st.composite
+def reuse_histories(draw):
+    case = draw(histories())
+    case["reuse"] = True
+    ops = case["ops"]
+    # make sure there is a close somewhere in the middle and something after it
+    pos = draw(st.integers(1, max(1, len(ops) - 1)))
+    ops.insert(pos, ["close"])
+    ops.append(draw(st.sampled_from([["open"], ["call", "none"], ["call", "5"]])))
+    ops.append(["adv", draw(st.sampled_from([1, 12, 40]))])
+    ops.append(["close"])
+    ops.append(["adv", 2])
+    return case
+
+
 SPEC = Property(
     P, "fault_enumeration",
     rule=("address lists of 1..3 hosts (paired accessory / another accessory / refusing / black hole) x a per-attempt outcome script over "
@@ -122,6 +137,7 @@ SPEC = Property(
         Layer("outcome-pairs", run_case, enumerate=enum_outcome_pairs, exhaustive=True,
               space="every outcome x 3 frames, every ordered pair of outcomes x 1 frame, every outcome x 2 two-host frames", min_nontrivial=150),
         Layer("generated", run_case, strategy=histories, n={"quick": 12000, "thorough": 150000}, min_nontrivial=500),
+        Layer("reuse-after-close", run_case, strategy=reuse_histories, n={"quick": 4000, "thorough": 60000}, min_nontrivial=200),
     ],
     assumptions=["'holds a connection' = the controller has not called close()/abort() on the transport and has not been told it is lost",
                  "observations are taken when the event loop is idle, and at the instant each new connection is opened"],
